@@ -45,8 +45,8 @@ SortBack == /\ (n1 >= 1 => Sorted(SubSeq(s[1], 1, n1 - 1)))
 PushSort(v) == /\ Sorted(s[1]) /\ CanTake
                /\ s' = [s EXCEPT ![1] = InsAt(s[1], PushSortPos(s[1], v), v)] /\ p' = [p EXCEPT ![1] = Take] /\ UNCHANGED z
                /\ last' = Rec("push_sort", 0, v, PushSortPos(s[1], v) + 1, v)
-\* a_que_swap_ is a_list_swap_node: two different, non-adjacent elements
-SwapElems(i, j) == /\ i >= 1 /\ j <= n1 /\ j - i >= 2
+\* a_que_swap_: any two elements of the queue, in either order, neighbours and an element with itself included
+SwapElems(i, j) == /\ i >= 1 /\ j >= 1 /\ i <= n1 /\ j <= n1
                    /\ s' = [s EXCEPT ![1] = [s[1] EXCEPT ![i] = s[1][j], ![j] = s[1][i]]] /\ UNCHANGED <<p, z>>
                    /\ last' = Rec("swap_elems", i - 1, j - 1, 0, 0)
 SwapQueues == /\ s' = <<s[2], s[1]>> /\ p' = <<p[2], p[1]>> /\ z' = <<z[2], z[1]>>
